@@ -5,6 +5,7 @@ import ast
 from typing import Any
 
 from ..astutil import dotted, is_const, is_none, norm, walk_body, walk_local
+from ..dcmodel import fresh_object_local
 from ..digest import contributions
 from ..dtree import decision_tree, strip_casts
 from ..effects import scan_mutations
@@ -21,7 +22,8 @@ NODE = "pyoak.node"
 REG = "NODE_REGISTRY"
 OWNERS = {"_unregister", "ASTNode.__post_init__", "ASTNode._deserialize", "ASTNode.replace"}
 UNREG_CALLERS = {"ASTNode.detach", "ASTNode.detach_self", "ASTNode.replace"}
-FRESH_KEYS = {("ASTNode._deserialize", "new_obj.id"): "provisional key of the node re-created on this path"}
+# functions in which the key <fresh local>.id is the provisional key of the object re-created on the same path
+FRESH_KEY_FUNCS = {"ASTNode._deserialize": "provisional key of the node re-created on this path (local bound once to super()._deserialize)"}
 
 
 def reg_mutations(fn: ast.FunctionDef) -> list[tuple[str, ast.AST, ast.expr | None]]:
@@ -219,8 +221,9 @@ def r_reg_ident(ck: Checker) -> None:
                 ck.violation("R-REG-IDENT", f, node, what, construct=f"{f.qualname}: unkeyed removal {norm(node)[:40]}")
                 continue
             ktxt = norm(key)
-            if (f.qualname, ktxt) in FRESH_KEYS:
-                ck.holds("R-REG-IDENT", f, node, what, exempt=FRESH_KEYS[(f.qualname, ktxt)])
+            fresh = fresh_object_local(f.node) if f.qualname in FRESH_KEY_FUNCS else None
+            if fresh is not None and ktxt == f"{fresh}.id":
+                ck.holds("R-REG-IDENT", f, node, what, exempt=FRESH_KEY_FUNCS[f.qualname])
                 continue
             if not (isinstance(key, ast.Attribute) and key.attr == "id"):
                 ck.violation("R-REG-IDENT", f, node, what, construct=f"{f.qualname}: removal keyed by {ktxt}")
@@ -616,16 +619,28 @@ def r_get_form(ck: Checker) -> None:
     else:
         ck.holds("R-GET-FORM", f, f.node, what, evaluations=len(leaves))
     g = ck.repo.func(NODE, "ASTNode.get_any")
-    rets = [s for s in walk_body(g.node.body) if isinstance(s, ast.Return)]
     what = "get_any(id, default) is the plain registry lookup"
-    rtxt = [norm(r.value) for r in rets if r.value is not None]
-    ok_forms = (f"{REG}.get(id, default)", f"default if {REG}.get(id) is None else {REG}.get(id)", f"{REG}.get(id) if {REG}.get(id) is not None else default")
-    if len(rets) == 1 and rtxt and rtxt[0] in ok_forms:
-        ck.holds("R-GET-FORM", g, rets[0], what)
-    elif rtxt and all(REG in x for x in rtxt) and any("default" in x for x in rtxt):
-        raise Unsupported(f"get_any returns {rtxt}", g.node)
+    gid = g.node.args.args[1].arg
+    gdef = g.node.args.args[2].arg if len(g.node.args.args) > 2 else "default"
+    gr = f"{REG}.get({gid})"
+    gleaves = decision_tree(strip_casts(g.node.body))
+    gbad = []
+    for lf in gleaves:
+        a = lf.assign
+        got = lf.rval() if lf.outcome == "return" else lf.outcome
+        if not a:
+            if got != f"{REG}.get({gid}, {gdef})":
+                gbad.append(f"returns {got}")
+            continue
+        if set(a) - {k_none(gr)}:
+            raise Unsupported(f"get_any decides on {sorted(a)}", g.node)
+        exp = (gdef,) if a[k_none(gr)] else (gr, f"{REG}[{gid}]")
+        if got not in exp:
+            gbad.append(f"{a}: returns {got}, expected {exp[0]}")
+    if gbad:
+        ck.violation("R-GET-FORM", g, g.node, what, construct=f"get_any {gbad[0]}")
     else:
-        ck.violation("R-GET-FORM", g, g.node, what, construct=f"get_any returns {rtxt}")
+        ck.holds("R-GET-FORM", g, g.node, what, evaluations=len(gleaves))
 
 
 def run(ck: Checker) -> None:
